@@ -43,11 +43,12 @@ COMPONENTS = {
     "simulated": ["storage for the parquet step (fault-free)"],
 }
 EXPECTED_PROBES = ["step_slice", "step_take", "step_mask", "step_concat",
-                   "step_concat_slices_of_one_parent", "non_dyadic_coordinates", "step_pickle",
+                   "step_concat_slices_of_one_parent", "non_dyadic_coordinates",
+                   "step_sindex_built_on_array", "step_pickle",
                    "step_parquet", "step_series", "step_int", "invalid_request_checked",
                    "chain_depth_ge_3", "nonzero_offset_array", "take_ascending_with_repeats"]
 
-OPS = ("int", "slice", "slice", "mask", "take", "take_fill", "concat", "concat_slices", "copy", "iter", "series",
+OPS = ("int", "slice", "slice", "mask", "take", "take_fill", "concat", "concat_slices", "sindex", "copy", "iter", "series",
        "frame", "pickle", "parquet", "bad_int", "bad_take", "bad_mask")
 
 
@@ -296,6 +297,15 @@ def _drive(case, root, fs, probes, sig, done):
             newmod = mod[a:b]
             probes["step_series"] = 1
             done.append(("frame", a, b))
+        elif op == "sindex":
+            # a spatial index built on this very array object (what a cx query through a
+            # Series does as a side effect): every quantity must stay what it was
+            _guard("build_sindex", lambda: arr.build_sindex(p=st["p"]) if st["bits"] & 1
+                   else arr.sindex, sig)
+            probes["step_sindex_built_on_array"] = 1
+            done.append(("sindex", st["bits"] & 1))
+            _check(arr, mod, case, op, sig, probes, st, shape_arr)
+            continue
         elif op == "pickle":
             new = _guard("pickle", lambda: pickle.loads(pickle.dumps(arr)), sig)
             newmod = list(mod)
@@ -373,6 +383,9 @@ def _quant(arr, st, shape_arr):
     q("length", lambda: [models.freeze(float(v)) for v in arr.length])
     q("area", lambda: [models.freeze(float(v)) for v in arr.area])
     q("intersects_bounds", lambda: [bool(v) for v in arr.intersects_bounds(box)])
+    # the same rectangle named by its other two corners
+    q("intersects_bounds_corners_swapped",
+      lambda: [bool(v) for v in arr.intersects_bounds((box[2], box[3], box[0], box[1]))])
     if len(arr) > 1:
         inds = np.arange(len(arr))[::2]
         q("intersects_bounds_inds", lambda: [bool(v) for v in arr.intersects_bounds(box, inds)])
